@@ -308,6 +308,31 @@ pub fn run(ctx: &Ctx) -> Report {
         }
         // restore the default budget
         let _ = dbh.exec("PRAGMA join_memory_budget = 10485760");
+
+        // ---- the same data with secondary indexes on the join key and the payload column of every
+        // table: the planner may now choose the index-nested-loop join; 2-way joins only, signatures
+        // carry the prefix `idx:`
+        if di <= 3 || ctx.thorough {
+            let dbi = Dbh::create(ctx, &format!("c17-idx-{di}"));
+            load(&dbi, &mut model, &tables);
+            for t in &tables {
+                let _ = dbi.exec(&format!("CREATE INDEX ix_{}_k ON {} (k)", t.name, t.name));
+                let _ = dbi.exec(&format!("CREATE INDEX ix_{}_p ON {} ({})", t.name, t.name, t.cols[2].0));
+            }
+            let mut qi: Vec<JQuery> = vec![];
+            let (t, u) = (&tables[0], &tables[1]);
+            for k in KINDS {
+                if *k == "cross" { continue; }
+                for on in ON_SHAPES { qi.push(two_way(t, u, k, on, "none", 20)); qi.push(two_way(u, t, k, on, "none", 20)); }
+                for wh in WHERE_SHAPES.iter().skip(1) { if *wh != "key-eq" { qi.push(two_way(t, u, k, "equi", wh, 20)); } }
+            }
+            for q in &mut qi { q.meta = format!("idx:{}", q.meta); }
+            for q in &qi {
+                let case = mk_case(q, &tables);
+                run_sql_case(&mut rep, &dbi, &mut model, &case);
+                rep.count("indexed_cases");
+            }
+        }
     }
     rep.notes.push(format!("sql model requests: {}", model.requests));
     drop(model);
